@@ -47,12 +47,13 @@ func union(a, b string) string {
 func c08(r *core.Run) {
 	r.Expl = "C08 (query results equal a direct aggregation): decides (1) soundness of the IP-version pruning of the block scan, exhaustively over the finite value domain: the function that yields Query.ipVersion is interpreted on every combination of child restrictions — for a conjunction the result's family set must contain the intersection, for a disjunction the union, a leaf may restrict only under comparator '=', everything else is unrestricted — and Query.ipVersion has no other source; (2) the key-population block and the comparison-value block of the evaluation loop are siblings: per attribute the same column, and every slice into a column is [W*i, W*i+W) (IPv4) resp. [4*v4+16*(i-v4), …+16) (IPv6) with W the declared width constant, checked by symbolic linear evaluation of the index expressions; (3) flag tables: the k-th attribute / condition flag setter sets the flag of the attribute whose column index is k; (4) in RunStatement every iterator step adds the same value to totals and to exactly one row and advances the row count once; Hits.Total and the row slice are that count; (5) at every SetOrUpdate call site argument k denotes the counter the callee adds parameter k to, and the callee's update and insert blocks agree. NOT decided: equality with an independent aggregation over all databases/conditions/ranges, time-filter arithmetic."
 	r.Floor = 60
-	r.Rules = append(r.Rules, "pruning-soundness (P7: interpretation over the enum domain)", "index-linear-form (P6+P4)", "flag-tables (P4)", "row-accounting (P2)", "counter-positions")
+	r.Rules = append(r.Rules, "pruning-soundness (P7: interpretation over the enum domain)", "index-linear-form (P6+P4)", "flag-tables (P4)", "row-accounting (P2)", "counter-positions", "per-block-state-refreshed")
 	p := r.Prog("cgo")
 	c08Pruning(r, p)
 	c08Population(r, p)
 	c08FlagTables(r, p)
 	c08RowAccounting(r, p)
+	c08StaleCarry(r, p)
 	m := ruleSetOrUpdateMapping(r, p)
 	ruleSetOrUpdateSites(r, p, m, pkgGoDB, pkgHashmap)
 }
@@ -636,4 +637,62 @@ func findIndex(e ast.Expr) *ast.IndexExpr {
 		}
 	}
 	return nil
+}
+
+// c08StaleCarry: the per-block state of the evaluation loop (time-extended keys, unpacked counter columns) lives in variables
+// declared outside the block loop; each must be refreshed for every evaluated block, not only under a per-block condition.
+func c08StaleCarry(r *core.Run, p *core.Prog) {
+	const rule = "per-block-state-refreshed"
+	f := r.MustFunc(rule, pkgGoDB, "DBWorkManager.readBlocksAndEvaluate")
+	if f == nil {
+		return
+	}
+	var loop *ast.RangeStmt
+	for _, st := range f.Decl.Body.List {
+		if rs, ok := st.(*ast.RangeStmt); ok {
+			loop = rs
+		}
+	}
+	if loop == nil {
+		r.Undecided(rule, "readBlocksAndEvaluate:block-loop", p.Rel(f.Decl.Pos()), "no top-level range loop over the blocks")
+		return
+	}
+	hz := staleCarryHazards(p, f, loop)
+	detail := "state kept across blocks in variables declared outside the block loop"
+	if len(hz) > 0 {
+		detail = hz[0]
+	}
+	r.Check(rule, "readBlocksAndEvaluate:block-loop", p.Rel(loop.Pos()), len(hz) == 0, detail)
+	// the rule must have something to look at: count carried variables assigned in the loop
+	info := f.Info()
+	n := 0
+	core.Walk(loop.Body, false, func(x ast.Node) bool {
+		if as, ok := x.(*ast.AssignStmt); ok && as.Tok == token.ASSIGN {
+			for _, l := range as.Lhs {
+				if o, isVar := core.ObjOf(info, l).(*types.Var); isVar && !(o.Pos() >= loop.Pos() && o.Pos() < loop.End()) && !o.IsField() {
+					n++
+				}
+			}
+		}
+		return true
+	})
+	if r.Thorough() {
+		// sweep: the same hazard in every range loop of the module (reported with its function; none exists on the pinned tree)
+		nLoops := 0
+		for _, g := range p.AllFuncs() {
+			core.Walk(g.Decl.Body, true, func(x ast.Node) bool {
+				if rs, ok := x.(*ast.RangeStmt); ok && rs != loop {
+					nLoops++
+					if hz := staleCarryHazards(p, g, rs); len(hz) > 0 {
+						r.Check(rule, "sweep:"+g.Where(), p.Rel(rs.Pos()), false, hz[0])
+					}
+				}
+				return true
+			})
+		}
+		r.Stat("loops_swept", nLoops)
+	}
+	if n < 4 {
+		r.Undecided(rule, "readBlocksAndEvaluate:carried-variables", p.Rel(loop.Pos()), fmt.Sprintf("only %d assignments to variables declared outside the block loop", n))
+	}
 }
